@@ -416,6 +416,8 @@ def structure_function_vk(seperation, r0, L0):
         ndarray, float: Structure function for seperation(s)
     """
     ## theoretical structure function
+    # the structure function is 0 at zero separation; evaluated literally it is 0 * inf = nan
+    seperation = seperation + 1e-40
     D_vk = (    0.17253 * (L0 / (r0)) ** (5. / 3.)
                 * (1 - 2 * numpy.pi ** (5. / 6.) * ((seperation) / L0) ** (5. / 6.)
                 / scipy.special.gamma(5. / 6.)
